@@ -338,6 +338,165 @@ def clause2_mutation(ctx, P, T):
         ctx.ob("C17.2 R-EFFECT", T.get, "lookup-is-pure", not stores, "lookup writes through the table at %s" % [s.loc for s in stores])
 
 
+def _is_hop_addr(P, f, o):
+    t = P.term(f, o)
+    return t[0] == "field" and t[2] == "struct.hashtable_string" and t[3] == "hop_info"
+
+
+def clause4_algorithm(ctx, P, T):
+    """structure of the hopscotch algorithm that every history depends on"""
+    # (A) the hop word is read and written at its full width, and hop_range() is that width
+    hr = [f for f in P.by_src.get("hop_range_" + T.name, [])]
+    if len(hr) != 1:
+        raise AnalysisBroken("hop_range_%s: %d definitions" % (T.name, len(hr)))
+    hr = hr[0]
+    rng = None
+    for v in Q.path_views(ctx, P, hr):
+        rng = v.ret_const()
+    widths = set()
+    narrowed = []
+    for f in (T.get, T.put, T.remove, T.closer):
+        if f is None:
+            continue
+        for i in f.all_insts():
+            if i.op == "load" and _is_hop_addr(P, f, i.a[0]):
+                widths.add(i.ty)
+                for u in f.users(i.id):
+                    if u.op == "trunc":
+                        narrowed.append(u)
+            if i.op == "store" and _is_hop_addr(P, f, i.a[1]):
+                o = i.a[0]
+                if isinstance(o, int) and o >= f.nparams and f.insts[o].op in ("zext", "sext"):
+                    narrowed.append(i)
+    okw = len(widths) == 1 and not narrowed and rng is not None and ("i%d" % rng) in widths
+    ctx.ob("C17.4 R-PAIR", T.put, "hop-word-width", okw,
+           "the hop bitmap is %s wide in the slot, hop_range() is %s, and it is narrowed / widened at %s: bits beyond the narrower "
+           "width are lost, entries placed there can never be found" % (sorted(widths), rng, [x.loc for x in narrowed][:4]))
+
+    # (B) the scan over a bucket's hop word ends only when the word is exhausted or the key is found
+    def is_eq_true(atom, pol):
+        return atom[0] == "truth" and Q.mentions(atom[1], lambda x: x[0] == "call" and x[1].startswith("is_equal_")) and pol or \
+            (atom[0] == "cmp" and Q.mentions(atom[2], lambda x: x[0] == "call" and x[1].startswith("is_equal_")) and atom[3] == ("const", 0) and not Q._poleq(atom, pol))
+    for f, role in ((T.get, "lookup"), (T.put, "duplicate-scan"), (T.remove, "removal")):
+        if f is None:
+            continue
+        scan = None
+        for h, body in f.loops().items():
+            t = f.term_inst(h)
+            if t.op == "br" and t.a:
+                c = P.cond(f, t.a[0])
+                if c[0] != "const" and c[0][0] == "cmp" and c[0][1] in ("ne", "eq") and c[0][3] == ("const", 0) and c[0][2][0] == "phi":
+                    ph = f.insts[c[0][2][1]]
+                    outside = [v for (v, pb) in ph.inc if pb not in body]
+                    if outside and all(isinstance(P.strip(f, v), int) and P.strip(f, v) >= f.nparams and f.insts[P.strip(f, v)].op == "load" and
+                                       _is_hop_addr(P, f, f.insts[P.strip(f, v)].a[0]) for v in outside):
+                        scan = (h, body, ph)
+        if scan is None:
+            raise AnalysisBroken("%s: scan loop over the hop word not found" % f.key)
+        h, body, ph = scan
+        bad = []
+        for u in sorted(body):
+            for (sv, atom, pol) in P.edge_conds(f, u):
+                if sv in body or u == h:
+                    continue
+                if (atom is not None and is_eq_true(atom, pol)) or Q.must_pass(P, f, u, is_eq_true):
+                    continue
+                bad.append((u, atom, pol))
+        ctx.ob("C17.4 R-LOOP", f, "scan-ends-only-when-exhausted-or-found:" + role, not bad,
+               "the scan over the home bucket's hop word is left early (%s): entries of the bucket that lie behind that point are not "
+               "seen" % "; ".join("%s [%s]" % (f.blocks[u][0].loc, fmt_atom(a, p) if a else "unconditional") for (u, a, p) in bad[:3]))
+        # the word is shifted by one and the position advanced by one (wrapped) per iteration
+        step_ok = False
+        for (v, pb) in ph.inc:
+            if pb in body:
+                tv = P.term(f, v)
+                step_ok = tv == ("op", "lshr", (("phi", ph.id), ("const", 1)))
+        ctx.ob("C17.4 R-LOOP", f, "scan-step:" + role, step_ok, "the hop word is not shifted right by one per inspected slot")
+    # (C) the probe for a free slot starts at the home bucket with distance 0, advances by one wrapped slot, and an
+    #     insertion happens only within hop range; after a displacement the distance is recomputed from the home bucket
+    put = T.put
+    probe = None
+    for h, body in put.loops().items():
+        t = put.term_inst(h)
+        if t.op == "br" and t.a:
+            c = P.cond(put, t.a[0])
+            if c[0] != "const" and c[0][0] == "cmp" and c[0][1] == "ult" and c[0][2][0] == "phi" and c[0][3] == ("const", T.size // 2):
+                probe = (h, body, put.insts[c[0][2][1]])
+    if probe is None:
+        raise AnalysisBroken("%s: linear probe loop (distance < add_range) not found" % put.key)
+    h, body, dist = probe
+    init_ok = all(P.const_int(v) == 0 for (v, pb) in dist.inc if pb not in body) and \
+        all(P.term(put, v) == ("op", "add", (("phi", dist.id), ("const", 1))) for (v, pb) in dist.inc if pb in body)
+    pos_ok = False
+    for i in put.blocks[h]:
+        if i.op == "phi" and i.id != dist.id:
+            outs = [P.term(put, v) for (v, pb) in i.inc if pb not in body]
+            ins = [P.term(put, v) for (v, pb) in i.inc if pb in body]
+            if outs and all(Q.is_call_to(x, T.hash.srcname) for x in outs) and \
+                    all(Q.is_call_to(x, T.wrap.srcname) and x[2][0] == ("op", "add", (("phi", i.id), ("const", 1))) for x in ins):
+                pos_ok = True
+    ctx.ob("C17.4 R-INIT", put, "probe-starts-at-home", init_ok and pos_ok,
+           "the search for a free slot does not start at the key's home bucket with distance 0 and advance by one wrapped slot "
+           "(distance init/step ok: %s, position init/step ok: %s): free slots near the home bucket are skipped and insertions are "
+           "refused or placed out of reach although room exists" % (init_ok, pos_ok))
+    # insertion only within hop range
+    within = True
+    nkey = 0
+    for i in put.all_insts():
+        if i.op == "store":
+            sf = _slot_field_store(P, put, i)
+            if sf and sf[1] == "key" and P.term(put, i.a[0]) != ("const", -1):
+                nkey += 1
+
+                def in_range(atom, pol):
+                    return atom[0] == "cmp" and (atom[3] == ("const", rng) or Q.is_call_to(atom[3], hr.srcname)) and \
+                        ((atom[1] == "ult" and pol) or (atom[1] == "uge" and not pol))
+                if not Q.must_pass(P, put, i.block, in_range):
+                    within = False
+    ctx.ob("C17.4 R-GATE", put, "insert-only-within-hop-range", within and nkey > 0,
+           "a key is stored into a slot without the test distance < hop_range(): the home bucket's bitmap cannot point to it")
+    redo = False
+    for c in put.calls(T.closer.srcname):
+        for u in put.users(c.id):
+            tu = P.term(put, u.id) if u.op not in ("br", "store", "icmp") else None
+            if tu and tu[0] == "op" and tu[1] == "sub" and Q.mentions(tu[2][1], lambda x: Q.is_call_to(x, T.hash.srcname)):
+                redo = True
+    ctx.ob("C17.4 R-PAIR", put, "distance-recomputed-from-home-after-displacement", redo,
+           "after find_closer_entry() the distance of the new free slot is not recomputed as wrap(free_pos - home)")
+    # (D) displacement search: candidates are the buckets hop_range-1 .. 1 before the free slot, and only entries that lie
+    #     before the free slot are moved
+    fc = T.closer
+    init_d = False
+    inner = False
+    for h2, body2 in fc.loops().items():
+        t = fc.term_inst(h2)
+        if t.op == "br" and t.a:
+            c = P.cond(fc, t.a[0])
+            if c[0] == "const":
+                continue
+            a = c[0]
+            if a[0] == "cmp" and a[2][0] == "phi" and a[3] == ("const", 0) and a[1] in ("ugt", "ne"):
+                ph = fc.insts[a[2][1]]
+                def range_minus_1(v):
+                    if P.const_int(v) == rng - 1:
+                        return True
+                    tv = P.term(fc, v)
+                    return tv[0] == "op" and ((tv[1] == "add" and tv[2][1] == ("const", -1)) or (tv[1] == "sub" and tv[2][1] == ("const", 1))) and \
+                        Q.is_call_to(tv[2][0], hr.srcname)
+                if any(range_minus_1(v) for (v, pb) in ph.inc if pb not in body2) and \
+                        all(P.term(fc, v) == ("op", "add", (("phi", ph.id), ("const", -1))) for (v, pb) in ph.inc if pb in body2):
+                    init_d = ph.id
+    for h2, body2 in fc.loops().items():
+        t = fc.term_inst(h2)
+        if t.op == "br" and t.a:
+            c = P.cond(fc, t.a[0])
+            if c[0] != "const" and c[0][0] == "cmp" and c[0][1] == "ult" and c[0][2][0] == "phi" and c[0][3] == ("phi", init_d):
+                inner = True
+    ctx.ob("C17.4 R-LOOP", fc, "displacement-candidates", bool(init_d) and inner,
+           "find_closer_entry does not examine the buckets hop_range-1 .. 1 before the free slot and, per bucket, only the entries "
+           "lying before the free slot (outer loop ok: %s, inner bound 'i < check_distance' ok: %s)" % (bool(init_d), inner))
+
+
 def clause3_sweeps(ctx, P, T):
     n = 0
     for f in P.own_functions():
@@ -375,6 +534,7 @@ def run(ctx):
                          any(i.op == "getelementptr" and i.st == "%struct.hashtable_string" for i in f.all_insts())]
             total += clause1_bounds(ctx, P, T, extra)
             clause2_mutation(ctx, P, T)
+            clause4_algorithm(ctx, P, T)
             if name == "route_table":
                 sweeps += clause3_sweeps(ctx, P, T)
             ctx.note("%s: table size %d in configuration %s" % (name, T.size, cfg.name))
@@ -384,3 +544,4 @@ def run(ctx):
         raise AnalysisBroken("table sweeps found: %d" % sweeps)
     ctx.floor("C17.1 R-BOUND", 20)
     ctx.floor("C17.2 R-ORDER", 6)
+    ctx.floor("C17.4 R-LOOP", 10)
